@@ -45,7 +45,7 @@ def catch_with_iterable_(sources: Iterable[Observable[_T]]) -> Observable[_T]:
             def on_error(exn: Exception) -> None:
                 nonlocal last_exception
                 last_exception = exn
-                cancelable.disposable = _scheduler.schedule(action)
+                schedule_next()
 
             if is_disposed:
                 return
@@ -69,7 +69,15 @@ def catch_with_iterable_(sources: Iterable[Observable[_T]]) -> Observable[_T]:
                     scheduler=scheduler_,
                 )
 
-        cancelable.disposable = _scheduler.schedule(action)
+        def schedule_next() -> None:
+            # Assign the slot first: a scheduler running on another thread may
+            # hand over to the next source before schedule() returns here, and
+            # a late assignment must not cancel that newer subscription.
+            sad = SingleAssignmentDisposable()
+            cancelable.disposable = sad
+            sad.disposable = _scheduler.schedule(action)
+
+        schedule_next()
 
         def dispose() -> None:
             nonlocal is_disposed
